@@ -78,6 +78,19 @@ package tikv
 //@   ensures [never-an-unknown-outcome] err != nil ==> !err_is(err, storage.ErrUncertainResult)
 //@   ensures [writes-once-or-fails] (err == nil ==> txn_writes == old(txn_writes)+1) && (err != nil ==> txn_writes == old(txn_writes) && !err_is(err, storage.ErrCASFailed))
 
+// compare-and-delete of the iterator's current record: takes effect exactly when the key still holds
+// the value the iterator read; a key that has vanished or changed is a failed condition
+//@ func (*batch).DelCurrent$1(ctx) (err)
+//@   props C11 C12
+//@   nosafety
+//@   requires wf_batch(b)
+//@   modifies inferred:(*batch).DelCurrent$1
+//@   ensures [never-an-unknown-outcome] err != nil ==> !err_is(err, storage.ErrUncertainResult)
+//@   ensures [missing-key-is-a-failed-condition] get_missing ==> err_is(err, storage.ErrCASFailed) && txn_writes == old(txn_writes)
+//@   ensures [success-deletes-once] err == nil ==> txn_writes == old(txn_writes)+1 && !get_failed
+//@   ensures [failure-deletes-nothing] err != nil ==> txn_writes == old(txn_writes)
+//@   ensures [other-errors-are-not-conditions] get_failed && !get_missing ==> !err_is(err, storage.ErrCASFailed)
+
 //@ func (*batch).Del$1(ctx) (err)
 //@   props C11
 //@   requires wf_batch(b)
